@@ -31,3 +31,16 @@ pub broadcast proof fn lemma_as_ref_index_fwd<T>(s: Seq<T>, j: int)
     requires 0 <= j < s.len()
     ensures *(#[trigger] s.as_ref()[j]) == s[j]
 {}
+
+// `any`: true iff the predicate holds for some remaining element (std documentation)
+pub uninterp spec fn any_post<'a, T, P>(it: core::slice::Iter<'a, T>, p: P, r: bool) -> bool;
+pub assume_specification<'a, T, P: FnMut(<core::slice::Iter<'a, T> as Iterator>::Item) -> bool>[ <core::slice::Iter<'a, T> as Iterator>::any::<P> ](it: &mut core::slice::Iter<'a, T>, p: P) -> (r: bool)
+    where core::slice::Iter<'a, T>: Sized
+    ensures any_post(*old(it), p, r);
+#[verifier::external_body]
+pub broadcast proof fn axiom_any_post<'a, T, P: FnMut(&'a T) -> bool>(it: core::slice::Iter<'a, T>, p: P, r: bool)
+    requires #[trigger] any_post(it, p, r)
+    ensures
+        r ==> exists|i: int| 0 <= i < it.remaining().len() && call_ensures(p, (#[trigger] it.remaining()[i],), true),
+        !r ==> forall|j: int| 0 <= j < it.remaining().len() ==> call_ensures(p, (#[trigger] it.remaining()[j],), false),
+{}
